@@ -168,8 +168,8 @@ def observe_io(graph, sd):
     mapping = {}
     matches(graph, root, inst, mapping, problems, "instance()", instance=True)
     # pre/init task objects are runtime objects too, not reachable through attributes: count by calls
-    posts = [i for k, i in S.CALLS if k == "post_init"]
-    execs = [i for k, i in S.CALLS if k == "execute"]
+    posts = [c[1] for c in S.CALLS if c[0] == "post_init"]
+    execs = [c[1] for c in S.CALLS if c[0] == "execute"]
     for n, o in mapping.items():
         c = posts.count(id(o))
         if c != 1:
@@ -202,16 +202,43 @@ def observe_io(graph, sd):
                     problems.append(f"instance() with a shared store: node {m} was built twice")
                 first.setdefault(m, o)
             inst_node = {id(store.retrieve(id(o))): m for m, o in objs2.items() if store.retrieve(id(o)) is not None}
-            for kind, oid in S.CALLS[before:]:
+            for call in S.CALLS[before:]:
+                kind, oid = call[0], call[1]
                 m = inst_node.get(oid)
                 if kind == "execute" and m is not None and owners[m] and owners[m] <= built:
                     problems.append(f"instance() with a shared store: pre-task {m} of already built objects was executed again")
             built |= set(mp)
-        posts2 = [i for k, i in S.CALLS if k == "post_init"]
+        posts2 = [c[1] for c in S.CALLS if c[0] == "post_init"]
         if len(set(posts2)) != len(posts2):
             problems.append("instance() with a shared store: an object was post-initialised again by a later call")
     except Exception as e:
         problems.append(f"instance() with a shared store: raised {e!r}"[:300])
+
+    # --- a post-initialisation that fails once: the retry with the same store must not hand out the half-built object
+    k2s = [n for n in graph if graph[n]["cls"] == "K2" and not graph[n].get("dflt")]
+    if k2s:
+        objs3 = R.build(graph, None)
+        store3 = ObjectStore()
+        n = rng.choice(k2s)
+        S.CALLS.clear()
+        S.FAIL_POST_INIT.append(1)
+        try:
+            objs3[n].instance(DirectoryContext(Path("/job")), objects=store3)
+            S.FAIL_POST_INIT.clear()      # (the failing object was not the first K2 reached: nothing to observe)
+        except RuntimeError:
+            S.FAIL_POST_INIT.clear()
+            try:
+                i = objs3[n].instance(DirectoryContext(Path("/job")), objects=store3)
+                mp = {}
+                matches(graph, n, i, mp, problems, "instance() again after a failed post-initialisation", instance=True)
+                posts3 = [c[1] for c in S.CALLS if c[0] == "post_init"]
+                if id(i) not in posts3:
+                    problems.append("instance() again after a failed post-initialisation: the object returned was never post-initialised")
+            except Exception as e:
+                problems.append(f"instance() again after a failed post-initialisation: raised {e!r}"[:300])
+        except Exception as e:
+            S.FAIL_POST_INIT.clear()
+            problems.append(f"instance() with a failing post-initialisation: raised {e!r}"[:300])
 
     # --- runtime objects, parameter-file route (what run.py does)
     defs2 = json.loads(json.dumps(ro.__xpm__.__get_objects__([], SerializationContext())))
@@ -223,16 +250,24 @@ def observe_io(graph, sd):
         return case, problems
     mapping2 = {}
     matches(graph, root, inst2, mapping2, problems, "params.json as instance", instance=True)
-    posts = [i for k, i in S.CALLS if k == "post_init"]
-    order = [k for k, i in S.CALLS if k == "execute"]
-    execs = [i for k, i in S.CALLS if k == "execute"]
+    posts = [c[1] for c in S.CALLS if c[0] == "post_init"]
+    execs = [c[1] for c in S.CALLS if c[0] == "execute"]
+    exec_ks = [c[2] for c in S.CALLS if c[0] == "execute"]
     if len(posts) != len(defs2) or len(set(posts)) != len(posts):
         problems.append(f"params.json as instance: {len(posts)} post-initialisations for {len(defs2)} definitions")
     want_pre = {i for d in defs2 for i in d.get("pre-tasks", [])}
     want_init = defs2[-1].get("init-tasks", [])
     if len(execs) != len(want_pre) + len(want_init):
         problems.append(f"params.json as instance: {len(execs)} lightweight task executions, expected {len(want_pre)} pre-tasks + {len(want_init)} init tasks")
-    if any(S.CALLS.index(("execute", e)) < max(S.CALLS.index(("post_init", p)) for p in posts) for e in execs) and execs:
+    kinds = [c[0] for c in S.CALLS]
+    if execs and posts and kinds.index("execute") < len(kinds) - 1 - kinds[::-1].index("post_init"):
         problems.append("params.json as instance: a lightweight task ran before every object was initialised")
+    # the init tasks run after the pre-tasks (the order of the executions is told by the tasks' own parameter k)
+    by_id = {d["id"]: d for d in defs2}
+    kof = lambda i: (by_id[i].get("fields", {}).get("k") if by_id[i]["type"] == "LW" else None)
+    pre_ks, init_ks = [kof(i) for i in want_pre], [kof(i) for i in want_init]
+    if want_init and None not in pre_ks + init_ks and not set(pre_ks) & set(init_ks) and len(exec_ks) == len(pre_ks) + len(init_ks):
+        if sorted(exec_ks[: len(pre_ks)], key=str) != sorted(pre_ks, key=str) or exec_ks[len(pre_ks):] != init_ks:
+            problems.append(f"params.json as instance: init tasks do not run after the pre-tasks, in their order (executed k = {exec_ks}, pre-tasks {pre_ks}, init tasks {init_ks})")
     case["inst_file"] = {"defs": len(defs2), "pre": len(want_pre), "init": len(want_init), "execs": len(execs)}
     return case, problems
